@@ -4,9 +4,14 @@ DERIVED from the executable node model (Ssv/Model/Qbft: controller + instance, l
 agreement follows for the executable multi-node system `Ssv/Model/Qbft/SystemB.lean`:
 
   committee 1..n, n = 3f+1, at most f Byzantine members, one (identifier, height); steps `start i v`, `deliver i m` for ANY
-  message m whose verified signed parts that list a correct signer are backed by an earlier broadcast of that signer
-  (unforgeability — drop, duplication, reordering, selective delivery, equivocation, fabricated justifications are all
-  included), `timeout i r`; all start values, all schedules, all Byzantine behaviours, any number of rounds.
+  message m whose verified signed parts OF THE INSTANCE'S OWN IDENTIFIER that list a correct signer are backed by an earlier
+  broadcast of that signer with the same signed content, identifier included (unforgeability — drop, duplication, reordering,
+  selective delivery, equivocation, fabricated justifications are all included); signed parts with a FOREIGN identifier are
+  entirely adversary-controlled, because correct operators sign the same (height, round) with the same keys in the instances
+  of the validator's other duty roles; `timeout i r`; all start values, all schedules, all Byzantine behaviours, any rounds.
+  The proofs of H3 use the identifier guards of `validRoundChangeForData` (fix e1612ceed in /repo): every embedded
+  round-change and prepare that is counted carries the own identifier (`RcValid.ident`). With the validators as they were
+  before that fix agreement FAILS under this adversary: `C01_identifier_regression_old_model_disagrees`.
 
 STATUS: all eight rules are derived (`C01_rule_H0 … C01_rule_H7`, each an invariant of `Reachable`); none remains a
 hypothesis. `C01_agreement` is unconditional for every valid parameter set (`Params.Valid`: at most f Byzantine members and
